@@ -15,15 +15,31 @@ Definition out_eqb (a b : list N * err) : bool :=
   list_eqb N.eqb (fst a) (fst b) && err_eqb (snd a) (snd b).
 
 Record scripted_case := {
-  c_kind : skind; c_seed : nat; c_len : nat;
+  c_kind : skind; c_bare : bool; c_seed : nat; c_len : nat;
   c_reads : list rd_ev; c_conns : list conn_ev; c_bufs : list nat;
   o_opened : bool; o_outs : list (list N * err); o_reqs : list (option nat)
 }.
 
+(* finding C20-F1: end-of-file before the last byte is listed only for sessions
+   in which some response was close-delimited (no Content-Length, not chunked)
+   and closed cleanly; with framed responses the general tag stays *)
+Definition unframed (cns : list conn_ev) : bool := negb (forallb framed_ev cns).
+Definition narrow_eof (unfr : bool) (t : string) : string :=
+  if unfr && String.eqb t "viol:eof-before-complete" then "viol:eof-before-complete/close-delimited-response" else t.
+
+Definition is_serve (c : conn_ev) : bool := match c with CServe => true | _ => false end.
+
+(* the hypotheses of c20_live, decided on the case's inputs *)
+Definition live_case (c : scripted_case) : bool :=
+  forallb is_serve (c_conns c) &&
+  tolerated (c_len c) (c_kind c) retry_schedule (c_bufs c) 0 (c_reads c) &&
+  Nat.ltb (c_len c) (List.length (c_bufs c)).
+
 Definition check_scripted (c : scripted_case) : list string :=
   let dat := gen_data (c_seed c) (c_len c) in
-  let srv := {| data := dat; kind := c_kind c |} in
-  valid_outs dat [] (o_outs c) ++
+  let srv := {| data := dat; kind := c_kind c; bare := c_bare c |} in
+  List.map (narrow_eof (unframed (c_conns c))) (valid_outs dat [] (o_outs c)) ++
+  tag_if (live_case c && negb (o_opened c && complete_b dat (o_outs c))) "viol:tolerable-faults-not-survived" ++
   match session srv retry_schedule (c_reads c) (c_conns c) (c_bufs c) with
   | Ok None => tag_if (o_opened c) "mismatch:model-open-fails-impl-opens"
   | Ok (Some (s, outs)) =>
@@ -35,12 +51,20 @@ Definition check_scripted (c : scripted_case) : list string :=
   | _ => ["mismatch:model-out-of-fuel"]
   end.
 
-Record http_case := { h_seed : nat; h_len : nat; h_opened : bool; h_got : list N; h_err : err }.
+(* h_unframed: some response of the session was close-delimited and its
+   connection closed cleanly before the end; h_live: the harness cut at most as
+   many connections as one Read survives, against a server that honours Range, or
+   restarts with every restart reaching the earlier cut (see harness/cmd/c20) *)
+Record http_case := { h_seed : nat; h_len : nat; h_opened : bool; h_got : list N; h_err : err;
+                      h_unframed : bool; h_live : bool }.
 
 Definition check_http (c : http_case) : list string :=
   let dat := gen_data (h_seed c) (h_len c) in
-  if h_opened c then
+  (if h_opened c then
     tag_if (negb (is_prefix (h_got c) dat)) "viol:delivered-not-prefix-of-server-bytes" ++
-    tag_if (match h_err c with EEOF => negb (list_eqb N.eqb (h_got c) dat) | _ => false end) "viol:eof-before-complete" ++
+    tag_if (match h_err c with EEOF => negb (list_eqb N.eqb (h_got c) dat) | _ => false end)
+      (narrow_eof (h_unframed c) "viol:eof-before-complete") ++
     tag_if (match h_err c with ENone => true | _ => false end) "mismatch:harness-loop-ended-without-error"
-  else [].
+  else []) ++
+  tag_if (h_live c && negb (h_opened c && is_eof (h_err c) && list_eqb N.eqb (h_got c) dat))
+    "viol:tolerable-faults-not-survived".
